@@ -208,6 +208,12 @@ fn scan_and_connect(
 ) -> bool {
     let (head, tail, gap, c) = scan_both_ways(table, w, start);
 
+    #[cfg(rust_dsymbols_verif)]
+    crate::verif::emit(format!(
+        "{{\"ev\":\"scan\",\"w\":{:?},\"r\":{},\"head\":{},\"tail\":{},\"gap\":{},\"c\":{}}}",
+        w.iter().collect::<Vec<_>>(), start, head, tail, gap, c
+    ));
+
     if gap == 1 {
         table.join(head, tail, c);
     } else if gap == 0 && head != tail {
@@ -239,6 +245,10 @@ pub fn coset_table(
                 assert!(n < 100_000, "Reached coset table limit of 100_000");
 
                 table.join(i, n, g);
+                #[cfg(rust_dsymbols_verif)]
+                crate::verif::emit(format!(
+                    "{{\"ev\":\"define\",\"r\":{},\"g\":{},\"n\":{}}}", i, g, n
+                ));
                 for w in &rels {
                     if w.len() > 0 && w[0] == g {
                         let c = table.canon(i);
@@ -270,6 +280,17 @@ pub fn coset_table(
         if !merged {
             break;
         }
+    }
+
+    #[cfg(rust_dsymbols_verif)]
+    {
+        let result = table.compact();
+        crate::verif::emit(format!(
+            "{{\"ev\":\"return\",\"table\":{:?}}}",
+            (0..result.len()).map(|r| result.all_gens().iter()
+                .map(|&g| result.get(r, g).map(|x| x as isize).unwrap_or(-1))
+                .collect::<Vec<_>>()).collect::<Vec<_>>()
+        ));
     }
 
     table.compact()
